@@ -92,6 +92,42 @@ pub fn generate(rng: &mut Rng, property: &str, deep: bool) -> BScn {
     } else {
         None
     };
+    let lone_other = if second.is_none() && rng.chance(0.15) {
+        Some(LoneOther {
+            spec: OtherSpec {
+                duration: if knobs.grid { rng.range(1, 16) as f32 / 8.0 } else { (0.05 + rng.unit() * 2.0) as f32 },
+                delay: if rng.chance(0.4) {
+                    if knobs.grid {
+                        rng.range(1, 8) as f32 / 8.0
+                    } else {
+                        rng.unit() as f32
+                    }
+                } else {
+                    0.0
+                },
+                repeat: *rng.pick(&[Rep::None, Rep::None, Rep::Times(1), Rep::Times(2)]),
+            },
+            insert_component_at: if rng.chance(0.5) { Some(rng.range(1, 6) as usize) } else { None },
+        })
+    } else {
+        None
+    };
+    let late_animator = if selector && rng.chance(0.15) {
+        let insert_at = rng.range(1, 6) as usize;
+        let mut touch_at = Vec::new();
+        for _ in 0..rng.range(1, 3) {
+            touch_at.push(insert_at + rng.range(0, 10) as usize);
+        }
+        touch_at.sort();
+        touch_at.dedup();
+        Some(LateAnimator {
+            tl: if rng.chance(0.75) { Some(rng.usize_below(n_tls)) } else { None },
+            insert_at,
+            touch_at,
+        })
+    } else {
+        None
+    };
     let initial_key_for_extra = rng.below(n_keys as u64) as Key;
     let initial_key_tl = keys[initial_key_for_extra as usize];
     let cfg = Cfg {
@@ -138,11 +174,13 @@ pub fn generate(rng: &mut Rng, property: &str, deep: bool) -> BScn {
         } else {
             None
         },
+        lone_other: lone_other.clone(),
+        late_animator,
         order: Order {
             other_plugin_first: rng.chance(0.5),
             register_before_plugin: rng.chance(0.3),
             sequence: {
-                let all = legal_sequences(selector, second.is_some());
+                let all = legal_sequences(selector, second.is_some() || lone_other.is_some());
                 all[rng.usize_below(all.len())].clone()
             },
         },
@@ -457,7 +495,28 @@ pub fn shrink_candidates(s: &BScn) -> Vec<BScn> {
         };
         push(&|c| {
             c.second = None;
-            c.order.sequence.retain(|s| *s != "animate_other");
+            if !c.other_plugin() {
+                c.order.sequence.retain(|s| *s != "animate_other");
+            }
+        });
+        push(&|c| {
+            c.lone_other = None;
+            if !c.other_plugin() {
+                c.order.sequence.retain(|s| *s != "animate_other");
+            }
+        });
+        push(&|c| c.late_animator = None);
+        push(&|c| {
+            if let Some(l) = c.late_animator.as_mut() {
+                if l.touch_at.len() > 1 {
+                    l.touch_at.pop();
+                }
+            }
+        });
+        push(&|c| {
+            if let Some(l) = c.lone_other.as_mut() {
+                l.insert_component_at = None;
+            }
         });
         push(&|c| c.extra_entity = None);
         push(&|c| c.mirror = None);
@@ -481,7 +540,7 @@ pub fn shrink_candidates(s: &BScn) -> Vec<BScn> {
         push(&|c| c.selector_animator_prebuilt = false);
         push(&|c| c.initial_start_with = false);
         push(&|c| {
-            let all = legal_sequences(c.selector, c.second.is_some());
+            let all = legal_sequences(c.selector, c.other_plugin());
             c.order.sequence = all[0].clone();
         });
         push(&|c| c.order.other_plugin_first = false);
@@ -551,13 +610,14 @@ pub fn shrink_candidates(s: &BScn) -> Vec<BScn> {
 pub fn size(s: &BScn) -> usize {
     let mut n = s.frames.len() * 2 + s.frames.iter().map(|f| f.ops.len() * 2).sum::<usize>();
     n += s.cfg.second.is_some() as usize * 3;
+    n += s.cfg.lone_other.is_some() as usize * 3 + s.cfg.late_animator.as_ref().map(|l| 2 + l.touch_at.len()).unwrap_or(0);
     n += s.cfg.extra_entity.is_some() as usize * 3;
     n += s.cfg.mirror.is_some() as usize * 3;
     n += s.cfg.orphan.is_some() as usize * 3;
     n += s.cfg.chain.as_ref().map(|c| 1 + c.len()).unwrap_or(0);
     n += s.cfg.start_disabled as usize + s.cfg.initial_start_with as usize;
     n += s.cfg.selector_inserted_later as usize * 2 + s.cfg.selector_animator_prebuilt as usize;
-    n += (s.cfg.order.sequence != legal_sequences(s.cfg.selector, s.cfg.second.is_some())[0]) as usize
+    n += (s.cfg.order.sequence != legal_sequences(s.cfg.selector, s.cfg.other_plugin())[0]) as usize
         + s.cfg.order.other_plugin_first as usize
         + s.cfg.order.register_before_plugin as usize;
     for m in &s.cfg.tls {
